@@ -103,6 +103,7 @@ def variant_cfg(base: dict, seed: int, i: int, v: int):
     cfg["debug"] = (v % 6 == 5)
     cfg["order_seed"] = None if v % 3 == 0 else H(seed, i, v, "order") % (1 << 20)
     cfg["merge_connects"] = bool(v & 4)       # one connect() call per attribute pair, or several pairs per call
+    cfg["connect_one"] = (v % 7 == 3)         # single pairs through World.connect_one()
     sched = dict(POLICY_CYCLE[(i + v) % len(POLICY_CYCLE)])
     sched["seed"] = H(seed, i, v, "sched") % (1 << 31)
     return cfg, sched
